@@ -1,8 +1,28 @@
 /- GENERATED from the Go source by /verif/extract on every run. Do not edit. -/
-import TunnoxModel.Gen.Consts
 import TunnoxModel.Model.PredPrelude
 open Tunnox.PredPrelude
 namespace Gen
+
+namespace constants
+def PacketTypeSize : Nat := 1
+def PacketBodySizeBytes : Nat := 4
+def MaxPacketBodySize : Nat := 16777216
+end constants
+
+namespace packet
+def Handshake : Nat := 1
+def HandshakeResp : Nat := 2
+def Heartbeat : Nat := 3
+def JsonCommand : Nat := 16
+def CommandResp : Nat := 17
+def TunnelOpen : Nat := 32
+def TunnelOpenAck : Nat := 33
+def TunnelData : Nat := 34
+def TunnelClose : Nat := 35
+def DataStreamEOF : Nat := 36
+def Compressed : Nat := 64
+def Encrypted : Nat := 128
+end packet
 
 namespace packet.Type
 def IsHeartbeat (t : Nat) : Bool :=
